@@ -273,3 +273,16 @@ TEXT["C14"].update(
           "the decoder reads exactly those fields at that position and, for every type without a structured form, RDLENGTH octets of data, leaving its cursor at the end of the record; lemma_record_roundtrip composes the two contracts: type, class, TTL and opaque data come back unchanged.")
 TEXT["C04"].update(
     level=TEXT["C04"]["level"] + " Every record written carries an RDLENGTH that counts the rdata octets actually written (push_rr, all record types).")
+
+TEXT["C15"].update(
+    engine="verus+bounded",
+    level=TEXT["C15"]["level"] + " Bounded (engine B, real parse_dns_route on YAML fragments): the route handed to the router carries exactly the configured suffix list -- every entry, in order -- and the configured handler, for every ordered list of up to 3 suffixes out of 5 nested / case-variant names; a list with an invalid name is refused.")
+TEXT["C12"].update(
+    level=TEXT["C12"]["level"] + " Bounded (engine B, real parse_options / DhcpOptions::serialise): the HashMap glue both Verus units assume -- per code, the decoded value is the concatenation of its instances in wire order (2955 option areas incl. repeated and equal instances); "
+          "parse_options(serialise(t)) == t for values of 0, 1, 254..256, 509..511, 765 octets in three fill patterns. Kani: the integer option decoders (u16/u32/i32/u64) are total and big-endian for values of every length up to width + 2.")
+TEXT["C05"].update(
+    level=TEXT["C05"]["level"] + " Kani (black box, bounded): the integer DhcpParse impls never panic or overflow on values longer than the integer (reachable through RFC 3396 concatenation).")
+TEXT["C07"].update(
+    level=TEXT["C07"]["level"] + " Sending half of 'from the address it was addressed to' (Verus, unit netsend, R9 slice of erbium_net::socket::send_msg): the ancillary message handed to sendmsg(2) carries send_from in in_pktinfo.ipi_spec_dst (IPv4) / in6_pktinfo.ipi6_addr (IPv6) -- the fields Linux takes the source address from.")
+TEXT["C17"].update(
+    level=TEXT["C17"]["level"] + " Kani (complete): the PREF64 prefix-length-code table is RFC 8781's for all 256 lengths and all 65536 codes.")
